@@ -117,7 +117,7 @@ func oracleC08(c rvCase, resp raft.RequestVoteResponse, post NodeSt, eff string)
 	return bad
 }
 
-var rvKeys = []string{"role", "term", "vote", "log", "ci", "lc"}
+var rvKeys = []string{"role", "term", "vote", "leader", "log", "ci", "lc", "pw", "cfg", "com"}
 
 func TestE3RequestVote(t *testing.T) {
 	rep := NewReport("E3-requestVote")
